@@ -377,8 +377,22 @@ func fullParen(n jast.Node) jast.Node {
 
 var c04Ops = []string{".", "[]", "()", "{}", "*", "/", "%", "+", "-", "&", "=", "!=", "<", "<=", ">", ">=", "in", "^", "~>", "and", "or", "?:", ":="}
 
+const c04LeafKinds = 10
+
 func c04Leaf(k int) jast.Node {
-	switch k % 5 {
+	switch k % c04LeafKinds {
+	case 5:
+		return &jast.Name{V: "and", Bare: true}
+	case 6:
+		return &jast.Name{V: "or", Bare: true}
+	case 7:
+		return &jast.Name{V: "in", Bare: true}
+	case 8:
+		return &jast.Wild{}
+	case 9:
+		return &jast.Desc{}
+	}
+	switch k % c04LeafKinds {
 	case 0:
 		return &jast.Name{V: "a"}
 	case 1:
@@ -631,11 +645,11 @@ func c04EvalChain(r *fw.Rec, rr *prng.R) {
 
 func init() {
 	k := int64(len(c04Ops))
-	n2 := k * k * 2
+	n2 := k * k * 2 * c04LeafKinds * 3
 	n3 := k * k * k * 5
 	fw.Register(&fw.Prop{
 		ID: "C04", Title: "The parse is fixed by JSONata precedence, associativity and parentheses",
-		Rule: fmt.Sprintf("cases: (a) exhaustive: every ordered pair of the 23 infix/postfix operators (. [ ] ( ) { } * / %% + - & = != < <= > >= in ^( ) ~> and or ?: :=) in both bracketings (%d trees) and every ordered triple in all five bracketings (%d trees), operands rotating over a name, a variable, a number, a string and a call; each tree is printed with minimal parentheses (decided by the harness's own precedence table), with spaces and single quotes, fully parenthesised and with random whitespace, and each text must parse to the tree's structure; ", n2, n3) +
+		Rule: fmt.Sprintf("cases: (a) exhaustive: every ordered pair of the 23 infix/postfix operators (. [ ] ( ) { } * / %% + - & = != < <= > >= in ^( ) ~> and or ?: :=) in both bracketings, with each of the three operand positions holding each of the 10 operand kinds (name, variable, number, string, call, the bare words and/or/in, *, **) (%d trees) and every ordered triple in all five bracketings (%d trees), operands rotating over the 10 operand kinds; each tree is printed with minimal parentheses (decided by the harness's own precedence table), with spaces and single quotes, fully parenthesised and with random whitespace, and each text must parse to the tree's structure; ", n2, n3) +
 			"(b) 34 fixed probes: '/' as division vs regex, and/or/in as field names, right-associative := and else-branch, equal-precedence grouping, and the four structural errors; (c) PRNG-generated trees of 4..8 operators; (d) arithmetic/comparison/boolean chains evaluated minimally and fully parenthesised against the reference model. " +
 			"Oracle: canonical S-expression of the exported AST (single-expression blocks stripped, nested paths spliced, stacked predicates merged) vs the canonical form of the generating tree. non-trivial = every case; distinct by program text",
 		Assumptions: []string{"prefix minus is not a chain operator (the statement does not rank it)", "a regex literal directly after an opening bracket is not generated (port and jsonata-js lex '/' as division there)"},
@@ -651,10 +665,19 @@ func init() {
 					rr := prng.New(seed, 0xC04, uint64(i))
 					switch {
 					case i < n2:
-						shape := int(i % 2)
-						o2 := c04Ops[i/2%k]
-						o1 := c04Ops[i/2/k]
+						j := i
+						shape := int(j % 2)
+						j /= 2
+						kind := int(j % c04LeafKinds)
+						j /= c04LeafKinds
+						posn := int(j % 3)
+						j /= 3
+						o2 := c04Ops[j%k]
+						o1 := c04Ops[j/k]
 						leaves := c04Leaves(o1, o2, "", int(i))
+						if _, isVar := leaves[posn].(*jast.Var); !isVar || (posn < 2 && []string{o1, o2}[posn] != ":=") {
+							leaves[posn] = c04Leaf(kind)
+						}
 						tree, ok := c04Tree([]string{o1, o2}, shape, leaves)
 						if !ok {
 							r.Count("inexpressible_combinations_(assignment_to_non-variable)", 1)
@@ -712,7 +735,7 @@ func c04Leaves(o1, o2, o3 string, salt int) []jast.Node {
 
 func c04Random(rr *prng.R, ops []string, d int) (jast.Node, bool) {
 	if len(ops) == 0 {
-		return c04Leaf(rr.Intn(5)), true
+		return c04Leaf(rr.Intn(c04LeafKinds)), true
 	}
 	k := rr.Intn(len(ops))
 	var l, r jast.Node
